@@ -8,7 +8,7 @@ Modelled branch by branch, in the order of the code:
   * HEAD requests and the status codes 304, 308, 307, 301 return nil before anything else;
   * an empty responses map returns nil unless IncludeResponseStatus is set (since the fix of F-C08-3, commit c48114b);
   * Responses.Status: exact code, then the class key "1XX".."5XX" (for 100..599 only); then Default;
-  * no entry: nil unless IncludeResponseStatus;
+  * no entry: nil unless IncludeResponseStatus; an entry whose `Value` is nil (unresolved reference): error;
   * declared headers except the one named exactly "Content-Type", in sorted name order, first error returned
     (also under MultiError: the option only reaches the schema visitor and never changes the verdict):
       - header described by `content` (no schema): only presence is checked (finding #22, fixed);
@@ -364,6 +364,13 @@ def decodeHeader (s : Sch) (explode : Bool) (raw : String) (corner : Dec) : Dec 
   | .object => decodeObject s explode raw corner
   | t => parsePrim t raw
 
+/-- decodeValue on a header key that is present: with its first value, or with no value at all (`len(raw) == 0`:
+the decoders return nil and found — for an object schema a nil map, which the validator sees as an empty object) -/
+def decodeHdrVal (s : Sch) (explode : Bool) (rv : Option String) (corner : Dec) : Dec :=
+  match rv with
+  | some raw => decodeHeader s explode raw corner
+  | none => (match s.core.ty with | .object => .val (.obj .nil) | _ => .nil)
+
 structure Hdr where
   name : String
   required : Bool
@@ -380,6 +387,8 @@ structure MediaType where
 structure Resp where
   headers : List Hdr
   content : List (String × MediaType)
+  /-- `responseRef.Value != nil`; an entry whose reference was never resolved has no definition to check against -/
+  resolved : Bool := true
 
 structure Opts where
   strict : Bool := false       -- IncludeResponseStatus
@@ -391,8 +400,8 @@ structure Input where
   method : String
   status : Int
   responses : List (String × Resp)
-  /-- response headers: canonical name ↦ first value -/
-  hdrs : List (String × String)
+  /-- response headers: canonical name ↦ first value (`none`: the key is present with no value at all) -/
+  hdrs : List (String × Option String)
   /-- bytes still to be read from input.Body -/
   body : String
   /-- the body reader returns an error -/
@@ -402,7 +411,7 @@ structure Input where
   bodyDec : Dec
 
 inductive Err where
-  | statusNotSupported | hdrMissing (n : String) | hdrDecode (n : String) | hdrSchema (n : String)
+  | statusNotSupported | respUnresolved | hdrMissing (n : String) | hdrDecode (n : String) | hdrSchema (n : String)
   | hdrPanic (n : String) | ctUndeclared | bodyRead | bodyDecode | bodySchema
   deriving DecidableEq, Repr
 
@@ -412,17 +421,17 @@ structure Out where
   bodyAfter : Option String
   deriving DecidableEq, Repr
 
-def present (canon : String → String) (hdrs : List (String × String)) (h : Hdr) : Bool :=
+def present (canon : String → String) (hdrs : List (String × Option String)) (h : Hdr) : Bool :=
   (lookup (canon h.name) hdrs).isSome
 
 /-- validateResponseHeader (called with `append(opts, VisitAsResponse())` since commit 35101a0) -/
-def checkHeader (canon : String → String) (woOff : Bool) (hdrs : List (String × String)) (h : Hdr) : Option Err :=
+def checkHeader (canon : String → String) (woOff : Bool) (hdrs : List (String × Option String)) (h : Hdr) : Option Err :=
   match h.schema with
   | none => if !present canon hdrs h && h.required then some (.hdrMissing h.name) else none
   | some s =>
     match lookup (canon h.name) hdrs with
     | some raw =>
-      match decodeHeader s h.explode raw h.emptyNameDec with
+      match decodeHdrVal s h.explode raw h.emptyNameDec with
       | .err => some (.hdrDecode h.name)
       | .panic => some (.hdrPanic h.name)
       | .nil => if visit ⟨true, woOff⟩ .null s then none else some (.hdrSchema h.name)
@@ -443,7 +452,7 @@ def firstErr (f : Hdr → Option Err) : List Hdr → Option Err
 def checkedHeaders (r : Resp) : List Hdr := sortHdrs (r.headers.filter (fun h => h.name ≠ "Content-Type"))
 
 /-- `input.Header.Get("Content-Type")` -/
-def ctOf (i : Input) : String := (lookup "Content-Type" i.hdrs).getD ""
+def ctOf (i : Input) : String := ((lookup "Content-Type" i.hdrs).getD none).getD ""
 
 def skipStatus (status : Int) : Bool := status = 304 || status = 308 || status = 307 || status = 301
 
@@ -483,7 +492,8 @@ def validateResponse (canon : String → String) (reg : List (String × String))
   else match statusLookup i.responses i.status with
     | none => if o.strict then ⟨some .statusNotSupported, some i.body⟩ else keep
     | some r =>
-      match firstErr (checkHeader canon o.woOff i.hdrs) (checkedHeaders r) with
+      if !r.resolved then ⟨some .respUnresolved, some i.body⟩   -- "response has not been resolved"
+      else match firstErr (checkHeader canon o.woOff i.hdrs) (checkedHeaders r) with
       | some e => ⟨some e, some i.body⟩
       | none => checkBody reg o i r
 
@@ -568,17 +578,17 @@ def Skipped (i : Input) : Prop := i.method = "HEAD" ∨ i.status = 301 ∨ i.sta
 
 /-- the value of a present header as the property reads it: the decoded value; a header for which the
 decoder produced no typed value is its text -/
-def specValue : Dec → String → Option J
+def specValue : Dec → Option String → Option J
   | .err, _ => none
   | .panic, _ => none
-  | .nil, raw => some (.str raw)
+  | .nil, raw => some (.str (raw.getD ""))
   | .val v, _ => some v
 
-def HeaderOK (canon : String → String) (woOff : Bool) (hdrs : List (String × String)) (h : Hdr) : Prop :=
+def HeaderOK (canon : String → String) (woOff : Bool) (hdrs : List (String × Option String)) (h : Hdr) : Prop :=
   match lookup (canon h.name) hdrs with
   | none => h.required = false
   | some raw => ∀ s, h.schema = some s →
-      ∃ v, specValue (decodeHeader s h.explode raw h.emptyNameDec) raw = some v ∧ SatRep woOff v s
+      ∃ v, specValue (decodeHdrVal s h.explode raw h.emptyNameDec) raw = some v ∧ SatRep woOff v s
 
 def BodyOK (reg : List (String × String)) (o : Opts) (i : Input) (r : Resp) : Prop :=
   r.content = [] ∨
@@ -590,18 +600,19 @@ def Accept (canon : String → String) (reg : List (String × String)) (o : Opts
   match selected i.responses i.status with
   | none => o.strict = false
   | some r =>
+    r.resolved = true ∧   -- an entry without definition cannot vouch for the response
     (∀ h, h ∈ r.headers → h.name ≠ "Content-Type" → HeaderOK canon o.woOff i.hdrs h) ∧
     (o.excludeBody = false → BodyOK reg o i r)
 
 /-! executable twin of `Accept` (the oracle of the differential run) -/
 
-def headerOKB (canon : String → String) (woOff : Bool) (hdrs : List (String × String)) (h : Hdr) : Bool :=
+def headerOKB (canon : String → String) (woOff : Bool) (hdrs : List (String × Option String)) (h : Hdr) : Bool :=
   match lookup (canon h.name) hdrs with
   | none => !h.required
   | some raw =>
     match h.schema with
     | none => true
-    | some s => match specValue (decodeHeader s h.explode raw h.emptyNameDec) raw with | some v => satRepB woOff v s | none => false
+    | some s => match specValue (decodeHdrVal s h.explode raw h.emptyNameDec) raw with | some v => satRepB woOff v s | none => false
 
 def bodyOKB (reg : List (String × String)) (o : Opts) (i : Input) (r : Resp) : Bool :=
   r.content.isEmpty ||
@@ -620,6 +631,7 @@ def acceptB (canon : String → String) (reg : List (String × String)) (o : Opt
   match selected i.responses i.status with
   | none => !o.strict
   | some r =>
+    r.resolved &&
     (r.headers.all (fun h => h.name = "Content-Type" || headerOKB canon o.woOff i.hdrs h)) &&
     (o.excludeBody || bodyOKB reg o i r)
 
@@ -650,17 +662,17 @@ end
 /-! ### Exclusion predicates (classes in which the code deviates from the property) -/
 
 /-- the decoding outcome of a declared header on this response (`none`: absent, or described by `content`) -/
-def hdrDec (canon : String → String) (hdrs : List (String × String)) (h : Hdr) : Option Dec :=
+def hdrDec (canon : String → String) (hdrs : List (String × Option String)) (h : Hdr) : Option Dec :=
   match h.schema, lookup (canon h.name) hdrs with
-  | some s, some raw => some (decodeHeader s h.explode raw h.emptyNameDec)
+  | some s, some raw => some (decodeHdrVal s h.explode raw h.emptyNameDec)
   | _, _ => none
 
 /-- F-C08-1: a present header with a schema whose decoding gives no value is visited as `null` -/
-def hdrDecodedNil (canon : String → String) (hdrs : List (String × String)) (h : Hdr) : Bool :=
+def hdrDecodedNil (canon : String → String) (hdrs : List (String × Option String)) (h : Hdr) : Bool :=
   match hdrDec canon hdrs h with | some .nil => true | _ => false
 
 /-- F-C08-5: a present header whose schema is an array without `items`, first item not empty: nil dereference -/
-def hdrArrayNoItems (canon : String → String) (hdrs : List (String × String)) (h : Hdr) : Bool :=
+def hdrArrayNoItems (canon : String → String) (hdrs : List (String × Option String)) (h : Hdr) : Bool :=
   match hdrDec canon hdrs h with | some .panic => true | _ => false
 
 def anyHdr (i : Input) (f : Hdr → Bool) : Bool :=
